@@ -1,1 +1,244 @@
-fn main(){}
+//! C02 — call glue follows the canonical calling convention for every signature.
+use e1_abivm::c02::*;
+use e1_abivm::harness::*;
+use refabi::xcheck;
+use serde_json::{json, Value};
+use std::collections::BTreeMap;
+use wit_parser::SizeAlign;
+
+const CHUNK: usize = 40;
+
+type Table = BTreeMap<String, (u64, u64, BTreeMap<String, (u64, String, Value, String)>)>;
+
+/// Per work chunk: for every triple, tallies of what happened, with the first signature seen per
+/// (triple, class).
+fn work_chunk(sigs: &[Sig], triples: &[Triple]) -> Value {
+    vcommon::install_quiet_panic_hook();
+    let decls: Vec<_> = sigs.iter().enumerate().map(|(i, s)| s.decl(&format!("g{i}"))).collect();
+    let parsed = match env_funcs(&decls) {
+        Ok(p) => p,
+        Err(e) => vcommon::machinery(&format!("C02 signatures must parse: {e}")),
+    };
+    let mut sizes = SizeAlign::default();
+    sizes.fill(&parsed.resolve);
+    let mut rep = xcheck::Report::default();
+    let mut stats = RunStats::default();
+    let mut table: Table = BTreeMap::new();
+    for (i, sig) in sigs.iter().enumerate() {
+        let func = parsed.func(&format!("g{i}"));
+        xcheck::check_signature(&parsed.resolve, func, &sig.params, sig.result.as_ref(), &mut rep);
+        for t in triples {
+            let (panicked, problems) = eval(&parsed.resolve, &sizes, func, sig, *t, &mut stats);
+            let e = table.entry(t.name()).or_default();
+            e.0 += 1;
+            if panicked.is_none() {
+                e.1 += 1;
+            }
+            let kind = match panicked {
+                Some(PanicKind::Todo) => "todo",
+                Some(PanicKind::Unreachable) => "unreachable",
+                Some(PanicKind::Other) => "panic",
+                None => "problem",
+            };
+            for (class, msg) in problems {
+                let c = e.2.entry(class).or_insert((0, kind.to_string(), sig.to_json(), msg));
+                c.0 += 1;
+            }
+        }
+    }
+    let table_json: BTreeMap<String, Value> = table
+        .into_iter()
+        .map(|(k, (n, complete, classes))| {
+            let cl: BTreeMap<String, Value> = classes
+                .into_iter()
+                .map(|(c, (n, kind, first, msg))| (c, json!({"count": n, "kind": kind, "first": first, "message": msg})))
+                .collect();
+            (k, json!({"signatures": n, "complete": complete, "classes": cl}))
+        })
+        .collect();
+    json!({"table": table_json, "disagreements": rep.disagreements, "signatures": sigs.len(),
+           "sigs_xchecked": rep.signatures_compared, "runs": stats.runs, "nontrivial": stats.nontrivial,
+           "outcomes": stats.outcomes.len(), "recordings": sigs.len() * triples.len()})
+}
+
+fn merge(results: &[Value], table: &mut Table, tot: &mut BTreeMap<&'static str, u64>, disagreements: &mut Vec<String>) {
+    for r in results {
+        for d in r["disagreements"].as_array().unwrap() {
+            disagreements.push(d.as_str().unwrap().to_string());
+        }
+        for k in ["signatures", "sigs_xchecked", "runs", "nontrivial", "outcomes", "recordings"] {
+            *tot.entry(k).or_insert(0) += r[k].as_u64().unwrap_or(0);
+        }
+        for (tn, tv) in r["table"].as_object().unwrap() {
+            let e = table.entry(tn.clone()).or_default();
+            e.0 += tv["signatures"].as_u64().unwrap();
+            e.1 += tv["complete"].as_u64().unwrap();
+            for (c, cv) in tv["classes"].as_object().unwrap() {
+                let x = e.2.entry(c.clone()).or_insert((
+                    0,
+                    cv["kind"].as_str().unwrap().to_string(),
+                    cv["first"].clone(),
+                    cv["message"].as_str().unwrap().to_string(),
+                ));
+                x.0 += cv["count"].as_u64().unwrap();
+                // keep the smallest example
+                let cur = Sig::from_json(&x.2).unwrap();
+                let cand = Sig::from_json(&cv["first"]).unwrap();
+                if (cand.params.len(), cand.text().len()) < (cur.params.len(), cur.text().len()) {
+                    x.2 = cv["first"].clone();
+                    x.3 = cv["message"].as_str().unwrap().to_string();
+                }
+            }
+        }
+    }
+}
+
+fn classify(t: Triple, n: u64, complete: u64, classes: &BTreeMap<String, (u64, String, Value, String)>) -> &'static str {
+    let used = used_triples().iter().any(|(u, _)| *u == t);
+    let declared_only = classes.iter().filter(|(_, v)| v.1 != "problem").all(|(_, v)| v.1 == "todo" || v.1 == "unreachable");
+    if used {
+        "used"
+    } else if n > 0 && complete == 0 && declared_only {
+        "unimplemented"
+    } else if !t.consistent() {
+        "inconsistent (not judged)"
+    } else {
+        "complete"
+    }
+}
+
+fn main() {
+    let mut run = vcommon::Run::from_args("C02", "exploration");
+    vcommon::install_quiet_panic_hook();
+
+    if let Some(d) = run.replay_detail() {
+        let sig = Sig::from_json(&d["signature"]).unwrap_or_else(|e| vcommon::machinery(&format!("bad replay signature: {e}")));
+        let t = Triple::parse(d["triple"].as_str().unwrap_or("")).unwrap_or_else(|| vcommon::machinery("bad replay triple"));
+        let class = d["class"].as_str().unwrap_or("").to_string();
+        println!("replaying C02: {} as {} (class {class})", sig.text(), t.name());
+        let cl = classes_for(&sig, t).unwrap_or_default();
+        for (c, m) in &cl {
+            println!("  {c}: {m}");
+        }
+        let still = cl.iter().any(|(c, _)| *c == class);
+        println!("{}", if still { "REPLAY: still fails" } else { "REPLAY: passes now" });
+        std::process::exit(if still { 1 } else { 0 });
+    }
+
+    // ---- phase 1: all 16 triples on the base space (suffix length <= 2): classification + verdicts
+    let mut base = signatures(2);
+    rotate(&mut base, run.seed);
+    let all = Triple::all();
+    let chunks: Vec<Vec<Sig>> = base.chunks(CHUNK).map(|c| c.to_vec()).collect();
+    let results = vcommon::par_map(chunks.len(), vcommon::ncpu(), |i| work_chunk(&chunks[i], &all));
+    let mut table: Table = BTreeMap::new();
+    let mut tot: BTreeMap<&'static str, u64> = BTreeMap::new();
+    let mut disagreements: Vec<String> = Vec::new();
+    merge(&results, &mut table, &mut tot, &mut disagreements);
+    let class_of: BTreeMap<String, &'static str> = all
+        .iter()
+        .map(|t| {
+            let (n, c, cl) = table.get(&t.name()).cloned().unwrap_or_default();
+            (t.name(), classify(*t, n, c, &cl))
+        })
+        .collect();
+
+    // ---- phase 2 (thorough): the judged triples on the signatures with suffix length exactly 3
+    let mut deepest = 2;
+    let mut extra_sigs = 0u64;
+    if run.thorough() {
+        let judged: Vec<Triple> = all.iter().copied().filter(|t| matches!(class_of[&t.name()], "used" | "complete")).collect();
+        let mut deep: Vec<Sig> = signatures(3).into_iter().filter(|s| s.params.iter().filter(|t| **t != refabi::Ty::U32).count() == 3).collect();
+        rotate(&mut deep, run.seed);
+        extra_sigs = deep.len() as u64;
+        let chunks: Vec<Vec<Sig>> = deep.chunks(CHUNK).map(|c| c.to_vec()).collect();
+        let results = vcommon::par_map(chunks.len(), vcommon::ncpu(), |i| work_chunk(&chunks[i], &judged));
+        merge(&results, &mut table, &mut tot, &mut disagreements);
+        deepest = 3;
+    }
+    if !disagreements.is_empty() {
+        for d in disagreements.iter().take(10) {
+            eprintln!("  {d}");
+        }
+        vcommon::machinery(&format!(
+            "reference flatten_functype disagrees with trusted wit-parser wasm_signature on {} signatures, first: {}",
+            disagreements.len(),
+            disagreements[0]
+        ));
+    }
+    let used: BTreeMap<String, &'static str> = used_triples().into_iter().map(|(t, w)| (t.name(), w)).collect();
+
+    // ---- judge
+    let mut classification: BTreeMap<String, Value> = BTreeMap::new();
+    let mut samples: Vec<Value> = Vec::new();
+    for t in &all {
+        let name = t.name();
+        let (n, complete, classes) = table.get(&name).cloned().unwrap_or_default();
+        let class = class_of[&name];
+        let mut listed: BTreeMap<String, Value> = BTreeMap::new();
+        for (c, (cnt, kind, first, msg)) in &classes {
+            let sig = Sig::from_json(first).unwrap();
+            listed.insert(c.clone(), json!({"signatures": cnt, "kind": kind, "example": sig.text(), "message": msg.chars().take(300).collect::<String>()}));
+            let judged = match class {
+                "used" => true,
+                // a complete triple: paths that end in an explicit todo!() are listed as
+                // unimplemented paths, everything else counts
+                "complete" => kind != "todo",
+                _ => false,
+            };
+            if judged {
+                let min = minimise_sig(&sig, *t, c);
+                let msg_min = classes_for(&min, *t)
+                    .and_then(|cl| cl.into_iter().find(|(k, _)| k == c).map(|(_, m)| m))
+                    .unwrap_or(msg.clone());
+                let key = if c.starts_with("panic:") { format!("{c}:{name}") } else { format!("{c}:{name}:{}", min.text()) };
+                run.violation(
+                    &key,
+                    &format!("{} as {name}: {c}: {msg_min}", min.text()),
+                    json!({"signature": min.to_json(), "signature_text": min.text(), "triple": name, "class": c, "message": msg_min,
+                           "signatures_affected": cnt, "first_seen": sig.text()}),
+                );
+            }
+        }
+        if samples.len() < 6 && complete > 0 {
+            samples.push(json!({"triple": name, "signatures_completed": complete, "a_signature": base[(samples.len() * 997 + 131) % base.len()].text()}));
+        }
+        classification.insert(
+            name.clone(),
+            json!({"class": class, "used_by": used.get(&name), "signatures": n, "completed": complete, "panicked": n - complete, "observations": listed}),
+        );
+    }
+
+    let coverage = json!({
+        "evaluations": tot["runs"],
+        "distinct_nontrivial": tot["nontrivial"],
+        "rule": "an evaluation = one VM run of a recorded call glue: (signature, (AbiVariant, LiftLower, async) triple, pointer width, value assignment); non-trivial when the run executed at least one store / load / bitcast / allocation / deallocation / case dispatch",
+        "distinct_outcomes": tot["outcomes"],
+        "distinct_outcomes_rule": "distinct terminal events (Return / AsyncTaskReturn with their values), summed over work chunks",
+        "exhaustive": true,
+        "signatures_all_triples": base.len(),
+        "signatures_judged_triples_only": extra_sigs,
+        "deepest_completed_suffix_length": deepest,
+        "signature_space": {"prefix": "0..=18 u32 parameters", "suffix_alphabet": suffix_alphabet().iter().map(|t| t.to_string()).collect::<Vec<_>>(),
+                            "suffix_length": "<= 2 for all 16 triples; thorough: = 3 additionally for the used and complete triples",
+                            "result_alphabet": result_alphabet().iter().map(|t| t.as_ref().map(|t| t.to_string()).unwrap_or("none".into())).collect::<Vec<_>>()},
+        "limits_crossed": "flat parameter counts 0..=18+ cross 16 (sync, async lift) and 4 (async lower) from both sides; results with 0, 1, 2 and 17 flat values cross 1 (sync) and 16 (task.return)",
+        "triples": 16,
+        "recordings": tot["recordings"],
+        "value_assignments_per_run": ASSIGNMENTS,
+        "pointer_widths": [4, 8],
+        "signatures_cross_checked_with_wasm_signature": tot["sigs_xchecked"],
+        "classification": classification,
+        "classification_rule": "decided by the run on the base space: used = passed to abi::call by an in-repo backend (judged strictly: any panic or deviation is a violation); unimplemented = every signature ends in todo!()/unreachable!() (listed, not judged); inconsistent = async flag contradicts the ABI variant and no backend uses it (no canonical meaning; listed, not judged); complete = the rest (judged; paths that end in an explicit todo!() are listed as unimplemented paths, every other panic or deviation is a violation)",
+        "oracle": "exactly one CallWasm/CallInterface and exactly one Return/AsyncTaskReturn; CallWasm signature == refabi.flatten_functype; parameters decode (refabi.lift_flat_values: flat or through the tuple-laid-out record) to the arguments; results come back flat / through the return area (size, align, contents by refabi.load) / through one task.return with the canonical flattening; a callee-side indirect parameter record is GuestDeallocate'd exactly once with its size and alignment, and nothing else is; operand stack empty and no instruction after the return (generator assertions and VM)",
+        "samples": samples,
+    });
+    run.finish(coverage, vec![
+        "variant -> spec reading: GuestImport = canon lower (sync), GuestExport = canon lift (sync), GuestImportAsync = async canon lower, GuestExportAsync = async canon lift with callback (core result i32)".into(),
+        "task.return parameters = the result flattened as parameters (limit 16), else one pointer (CanonicalABI: canon task.return)".into(),
+        "for import variants combined with async = true (host side of an async import; no backend uses it) only parameter delivery, call count and return count are judged: how such glue should hand results back is the generator's private convention, not the spec's".into(),
+        "async *imports* are assembled by the backends from lower_to_memory / lower_flat / lift_from_memory (C01, C08), so (GuestImportAsync, LowerArgsLiftResults, async) is not used by any backend".into(),
+        "u32 parameters carry position-unique values, other parameters and the result cycle through V(T); two assignments per run".into(),
+        "pointer width 8 = ArchitectureSize extrapolation; wasm_signature is cross-checked against refabi.flatten_functype for every signature and variant (disagreement = exit 2)".into(),
+    ]);
+}
